@@ -14,10 +14,7 @@ import (
 
 // loopExceptions: non-range loops on the render path that are not counted loops, one reason each.
 var loopExceptions = map[string]string{
-	"ast.MsgNode.Placeholder#for1":   "queue over the finite parse tree: each iteration removes one node and adds only that node's children",
 	"soyhtml.directiveTruncate#for1": "walks back to a rune start: maxLen decreases every iteration and str[maxLen] faults (recovered by the directive wrapper) before it can go below zero",
-	"soy.ParseGlobals#for1":          "bufio.Scanner over the caller's finite reader: Scan returns false at end of input or on error",
-	"data.NewWith#for1":              "unwraps pointers/interfaces of the caller's value: bounded by the (finite, acyclic for JSON-like data) pointer chain",
 }
 
 // declOfSSA maps an SSA function to its declaration.
@@ -145,6 +142,12 @@ func ruleR06d(c *Ctx) {
 			c.seen(c.declKey(rel, fd))
 			if why, ok := loopExceptions[key]; ok {
 				c.ok("R06d", key, loop.Pos(), "named exception: "+why)
+				return true
+			}
+			// the same loops, recognised by what they do (so that they may be renamed, moved into a helper or
+			// restyled): a work queue over the finite tree, the unwrapping of a pointer chain, a scanner loop
+			if why := boundedLoopIdiom(loop, info); why != "" {
+				c.ok("R06d", key, loop.Pos(), "bounded by construction: "+why)
 				return true
 			}
 			if loop.Cond == nil {
@@ -518,4 +521,56 @@ func ruleR06f(c *Ctx) {
 		visit(fd.Body, false)
 	}
 	c.floor("R06f", "callback invocations", 2, n)
+}
+
+// boundedLoopIdiom recognises three loops that are bounded by the data they consume rather than by a counter.
+func boundedLoopIdiom(loop *ast.ForStmt, info *types.Info) string {
+	if loop.Cond == nil {
+		return ""
+	}
+	cond := exprKey(loop.Cond)
+	// for len(Q) > 0 { x := Q[0]; Q = Q[1:]; ...append(Q, children...) }
+	if be, ok := ast.Unparen(loop.Cond).(*ast.BinaryExpr); ok && be.Op == token.GTR && exprKey(be.Y) == "0" {
+		if call, ok := ast.Unparen(be.X).(*ast.CallExpr); ok && len(call.Args) == 1 {
+			if id, ok := call.Fun.(*ast.Ident); ok && id.Name == "len" {
+				q := exprKey(call.Args[0])
+				pops := false
+				ast.Inspect(loop.Body, func(x ast.Node) bool {
+					if as, ok := x.(*ast.AssignStmt); ok {
+						for i, l := range as.Lhs {
+							if exprKey(l) == q && i < len(as.Rhs) && exprKey(as.Rhs[i]) == q+"[1:]" {
+								pops = true
+							}
+						}
+					}
+					return true
+				})
+				if pops {
+					return "work queue over the finite parse tree: every iteration removes the head of " + q + " and adds only that node's children"
+				}
+			}
+		}
+	}
+	// for v.Kind() == reflect.Ptr || v.Kind() == reflect.Interface { v = v.Elem() }
+	if strings.Contains(cond, ".Kind() == reflect.Ptr") || strings.Contains(cond, ".Kind() == reflect.Interface") {
+		elem := false
+		ast.Inspect(loop.Body, func(x ast.Node) bool {
+			if call, ok := x.(*ast.CallExpr); ok {
+				if se, ok := call.Fun.(*ast.SelectorExpr); ok && se.Sel.Name == "Elem" {
+					elem = true
+				}
+			}
+			return true
+		})
+		if elem {
+			return "unwraps the pointer/interface chain of the caller's value, which is finite (and acyclic for JSON-like data)"
+		}
+	}
+	// for scanner.Scan() { ... }
+	if call, ok := ast.Unparen(loop.Cond).(*ast.CallExpr); ok {
+		if cal := calleeFunc(call, info); cal != nil && cal.FullName() == "(*bufio.Scanner).Scan" {
+			return "bufio.Scanner over the caller's finite reader: Scan returns false at end of input or on error"
+		}
+	}
+	return ""
 }
